@@ -398,7 +398,8 @@ Section Solve.
         destruct (si_node _ _ S1 th dfn nd Hn Ht) as [A _].
         destruct (Bool.bool_dec (coind (get G (gn_goal nd))) (tv th (gn_sol nd))) as [Eq|Ne].
         * right. split.
-          -- exists dfn, nd. repeat split; auto; try congruence.
+          -- exists dfn, nd. split; [exact Hn|]. split; [exact Hg|]. split; [reflexivity|].
+             split; [congruence|]. split.
              ++ rewrite Hlinks. apply mn_min_le_r.
              ++ intros i e0 Hi He0. assert (i = d) by congruence. subst i.
                 simpl in He0. rewrite (upd_nth_same _ _ _ _ Hed) in He0. inversion He0. reflexivity.
@@ -421,12 +422,101 @@ Section Solve.
         destruct (si_node _ _ S th dfn nd Hn Ht) as [A _].
         destruct (Bool.bool_dec (coind (get G (gn_goal nd))) (tv th (gn_sol nd))) as [Eq|Ne].
         * right. split.
-          -- exists dfn, nd. repeat split; auto; try congruence.
+          -- exists dfn, nd. split; [exact Hn|]. split; [exact Hg|]. split; [reflexivity|].
+             split; [congruence|]. split.
              ++ rewrite Hlinks. eapply mn_le_trans; [apply mn_min_le_r|]. simpl. lia.
              ++ intros i e0 Hi. congruence.
           -- destruct T as [dt [ndt [Ht1 [Ht2 [Ht3 _]]]]]. subst t g.
              eapply (wf_top _ _ W dfn nd dt ndt); eauto.
         * left. rewrite <- Hg. apply A. auto.
+  Qed.
+
+  (** ** pushing a new node *)
+  Lemma nodeat_push s g d nd :
+    nodeat (push_node s g) d nd ->
+    (d < length (sgraph s) /\ nodeat s d nd) \/
+    (d = length (sgraph s) /\
+     nd = mkGnode g (if coind (get G g) then Yes else No) (Some (length (stack s))) (Some (length (sgraph s)))).
+  Proof. unfold nodeat, push_node. simpl. apply nth_error_snoc_inv. Qed.
+
+  Lemma nodeat_push_old s g d nd : nodeat s d nd -> nodeat (push_node s g) d nd.
+  Proof. unfold nodeat, push_node. simpl. apply nth_error_app_l. Qed.
+
+  Lemma nodeat_push_new s g :
+    nodeat (push_node s g) (length (sgraph s))
+      (mkGnode g (if coind (get G g) then Yes else No) (Some (length (stack s))) (Some (length (sgraph s)))).
+  Proof. unfold nodeat, push_node. simpl. apply nth_error_snoc. Qed.
+
+  Lemma stack_push s g : stack (push_node s g) = stack s ++ [mkSentry (coind (get G g)) false].
+  Proof. reflexivity. Qed.
+
+  Lemma nodeat_lt s d nd : nodeat s d nd -> d < length (sgraph s).
+  Proof. intros H. apply nth_error_Some. unfold nodeat in H. congruence. Qed.
+
+  Lemma WF_push s g t :
+    WF s -> g < length G -> glookup (sgraph s) g = None -> Ctx s t g -> WF (push_node s g).
+  Proof.
+    intros W Hg Hnone C.
+    assert (Hreach : forall d nd, nodeat s d nd -> path G (gn_goal nd) g).
+    { intros d nd Hn. destruct C as [[_ C]|[[dt [ndt [T1 [T2 [T3 T4]]]]] He]].
+      - unfold nodeat in Hn. rewrite C in Hn. destruct d; discriminate.
+      - eapply path_trans; [eapply (wf_top _ _ W d nd dt ndt); eauto|].
+        subst t. eapply path_step; [exact He|apply path_refl]. }
+    constructor.
+    - intros d nd H. destruct (nodeat_push _ _ _ _ H) as [[_ H1]|[_ ->]]; [eapply wf_goal; eauto|auto].
+    - intros d d' nd nd' H H' E.
+      destruct (nodeat_push _ _ _ _ H) as [[L1 H1]|[-> ->]], (nodeat_push _ _ _ _ H') as [[L2 H2]|[-> ->]]; auto.
+      + eapply wf_nodup; eauto.
+      + exfalso. eapply glookup_none; eauto.
+      + exfalso. eapply glookup_none; eauto.
+    - intros d nd i H Hd. rewrite stack_push.
+      destruct (nodeat_push _ _ _ _ H) as [[L1 H1]|[-> ->]].
+      + destruct (wf_dep _ _ W d nd i H1 Hd) as [A [e [He Hc]]]. split; auto.
+        exists e. split; auto. apply nth_error_app_l; auto.
+      + simpl in Hd. inversion Hd; subst i. split; auto. eexists. split; [apply nth_error_snoc|reflexivity].
+    - intros i Hi. rewrite stack_push, app_length in Hi. simpl in Hi.
+      destruct (lt_dec i (length (stack s))) as [Hlt|Hge].
+      + destruct (wf_surj _ _ W i Hlt) as [d [nd [Hn Hd]]]. exists d, nd. split; auto. apply nodeat_push_old; auto.
+      + assert (i = length (stack s)) by lia. subst i. eexists _, _. split; [apply nodeat_push_new|reflexivity].
+    - intros d d' nd nd' i i' H H' Hd Hd'.
+      destruct (nodeat_push _ _ _ _ H) as [[L1 H1]|[-> ->]], (nodeat_push _ _ _ _ H') as [[L2 H2]|[-> ->]].
+      + eapply wf_mono; eauto.
+      + simpl in Hd'. inversion Hd'; subst i'. pose proof (wf_depth_lt _ _ _ _ W H1 Hd). lia.
+      + simpl in Hd. inversion Hd; subst i. pose proof (wf_depth_lt _ _ _ _ W H2 Hd'). lia.
+      + simpl in Hd, Hd'. inversion Hd; inversion Hd'; subst. lia.
+    - intros d nd H Hd. destruct (nodeat_push _ _ _ _ H) as [[L1 H1]|[-> ->]]; [|discriminate].
+      destruct (wf_pend _ _ W d nd H1 Hd) as [l [ndl [A [B [C' D]]]]].
+      exists l, ndl. repeat split; auto. apply nodeat_push_old; auto.
+    - intros d nd dt ndt H Ht Hdt. rewrite stack_push, app_length in Hdt. simpl in Hdt.
+      replace (length (stack s) + 1 - 1) with (length (stack s)) in Hdt by lia.
+      assert (gn_goal ndt = g).
+      { destruct (nodeat_push _ _ _ _ Ht) as [[L2 H2]|[-> ->]]; auto.
+        pose proof (wf_depth_lt _ _ _ _ W H2 Hdt). lia. }
+      rewrite H0. destruct (nodeat_push _ _ _ _ H) as [[L1 H1]|[-> ->]]; [eauto|apply path_refl].
+    - intros d nd d' nd' i i' H H' Hd Hd' Hle.
+      destruct (nodeat_push _ _ _ _ H) as [[L1 H1]|[-> ->]], (nodeat_push _ _ _ _ H') as [[L2 H2]|[-> ->]].
+      + eapply wf_chain; eauto.
+      + simpl. eauto.
+      + simpl in Hd. inversion Hd; subst i. pose proof (wf_depth_lt _ _ _ _ W H2 Hd'). lia.
+      + apply path_refl.
+  Qed.
+
+  Lemma sub_push s g : sub s (push_node s g).
+  Proof.
+    constructor; auto.
+    - intros i e H. exists e. rewrite stack_push. split; auto. apply nth_error_app_l; auto.
+    - intros d nd H. apply nodeat_push_old; auto.
+  Qed.
+
+  Lemma SI_push s g : WF s -> SI s -> SI (push_node s g).
+  Proof.
+    intros W S. constructor.
+    - exact (si_cache _ _ S).
+    - intros th d nd H Ht. destruct (nodeat_push _ _ _ _ H) as [[L1 H1]|[-> ->]].
+      + destruct (si_node _ _ S th d nd H1) as [A B]; [eapply trusted_sub; [apply (sub_push s g)|auto]|].
+        split; auto. intros Hc Hp. eapply Rel_sub; eauto; [apply sub_push|apply mn_le_refl].
+      + simpl. split; [|discriminate]. intros Hne. exfalso. apply Hne.
+        destruct (coind (get G g)); reflexivity.
   Qed.
 
   Lemma snsg_S f g depth dfn s :
